@@ -584,6 +584,21 @@ def select__exists(self: XPathFunction, context: ta.ContextType = None) \
         yield value is not None and value != []
 
 
+def eq_comparable(value1: object, value2: object) -> bool:
+    """
+    Returns `False` for the pairs of atomic values for which the 'eq' operator is not
+    defined, that Python compares anyway: an xs:boolean with a number (True == 1) and
+    an xs:untypedAtomic, that is compared as an xs:string, with a non-string value.
+    """
+    if isinstance(value1, bool) or isinstance(value2, bool):
+        return isinstance(value1, bool) and isinstance(value2, bool)
+    elif isinstance(value1, UntypedAtomic):
+        return isinstance(value2, (str, UntypedAtomic, AnyURI))
+    elif isinstance(value2, UntypedAtomic):
+        return isinstance(value1, (str, AnyURI))
+    return True
+
+
 @method(function('distinct-values', nargs=(1, 2),
                  sequence_types=('xs:anyAtomicType*', 'xs:string', 'xs:anyAtomicType*')))
 def select__distinct_values(self: XPathFunction, context: ta.ContextType = None)\
@@ -602,7 +617,8 @@ def select__distinct_values(self: XPathFunction, context: ta.ContextType = None)
                         yield value
                         nan = True
                 elif all(not math.isclose(value, get_double(x), rel_tol=1E-18, abs_tol=0)
-                         for x in results if isinstance(x, (int, Decimal, float))):
+                         for x in results
+                         if isinstance(x, (int, Decimal, float)) and not isinstance(x, bool)):
                     yield value
                     results.append(value)
 
@@ -611,10 +627,12 @@ def select__distinct_values(self: XPathFunction, context: ta.ContextType = None)
                 results.append(value)
 
     def same_value(value1: AtomicType, value2: AtomicType) -> bool:
+        if not eq_comparable(value1, value2):
+            return False  # values that cannot be compared are distinct
         try:
             return bool(value1 == value2)
         except (TypeError, ValueError, ArithmeticError):
-            return False  # values that cannot be compared are distinct
+            return False
 
     if len(self) < 2:
         collation = self.parser.default_collation
@@ -670,7 +688,7 @@ def select__index_of(self: XPathFunction, context: ta.ContextType = None) -> Ite
     with CollationManager(collation, self) as manager:
         for pos, result in enumerate(self[0].atomization(context), start=1):
             try:
-                if manager.eq(result, value):
+                if eq_comparable(result, value) and manager.eq(result, value):
                     positions.append(pos)
             except (TypeError, ValueError, ArithmeticError):
                 pass  # values that cannot be compared are not equal
